@@ -20,7 +20,8 @@ RULE = ("definitions from the supported forms: header with string values, exists
         "with :copy/:create, reject, keep, discard, stop, set/add/removeflag, vacation "
         "[:mime]); values benign or soft (commas, spaces, brackets, non-ASCII); each read "
         "back in 4 views (original, disabled, re-enabled, reloaded) and, for half of them, after "
-        "updatefilter on the disabled filter (same name / renamed / renamed then enabled). Non-trivial = definition "
+        "updatefilter on the disabled filter (same name / renamed / renamed then enabled); filter "
+        "names (ASCII and non-ASCII) handed over as str or as UTF-8 bytes. Non-trivial = definition "
         "was built; distinct = distinct definitions.")
 ASSUMPTIONS = [
     "normal form: tuples, numbers compared by str(), lists stay lists",
@@ -30,9 +31,9 @@ ASSUMPTIONS = [
 ]
 FLOORS = {
     "quick": {"readbacks": 28000, "views:reloaded": 5000, "views:disabled": 7000,
-              "multi-condition": 3000, "views:update": 3000},
+              "multi-condition": 3000, "views:update": 3000, "names-as-bytes": 1500},
     "thorough": {"readbacks": 1500000, "views:reloaded": 300000, "views:disabled": 300000,
-                 "multi-condition": 100000, "views:update": 100000},
+                 "multi-condition": 100000, "views:update": 100000, "names-as-bytes": 70000},
 }
 SHARD_TIMEOUT = {"quick": 600, "thorough": 3000}
 
@@ -40,6 +41,9 @@ COND_KINDS = ["header", "header", "exists", "size", "envelope", "address", "addr
               "body", "currentdate", "currentdate-value"]
 ACT_KINDS = ["fileinto", "redirect", "reject", "keep", "discard", "stop", "setflag",
              "addflag", "removeflag", "vacation-plain"]
+
+
+NAME_PAIRS = [("f", "g"), ("règle é", "g"), ("f", "名前"), ("x: y", "filter #2")]
 
 
 def plan(tier, seed):
@@ -133,41 +137,53 @@ def compare(d, got):
 
 def evaluate(d):
     """-> (built?, list of (view, what, how, detail))"""
+    # names may be handed over as str or as UTF-8 bytes (the API takes both); what is read
+    # back must not depend on it
+    f, g = getattr(d, "_names", None) or ("f", "g")
     fs = fl.FiltersSet("t")
-    r = fl.call(fs.addfilter, "f", list(d.conditions), list(d.actions), d.matchtype)
+    r = fl.call(fs.addfilter, f, list(d.conditions), list(d.actions), d.matchtype)
     if r[0] != "ret":
         return False, [], r
     res = []
-    for what, how, detail in compare(d, read(fs)):
+    for what, how, detail in compare(d, read(fs, f)):
         res.append(("original", what, how, detail))
-    fl.call(fs.disablefilter, "f")
-    for what, how, detail in compare(d, read(fs)):
+    fl.call(fs.disablefilter, f)
+    for what, how, detail in compare(d, read(fs, f)):
         res.append(("disabled", what, how, detail))
     text = fl.render(fs)
-    fl.call(fs.enablefilter, "f")
-    for what, how, detail in compare(d, read(fs)):
+    fl.call(fs.enablefilter, f)
+    for what, how, detail in compare(d, read(fs, f)):
         res.append(("re-enabled", what, how, detail))
     # updatefilter on a disabled filter (same name, then renamed): the new definition
     # must be what is read back, under the new name, disabled or not
     upd = getattr(d, "_update", None)
     if upd is not None:
-        fl.call(fs.disablefilter, "f")
-        r2 = fl.call(fs.updatefilter, "f", "f", list(upd.conditions), list(upd.actions),
+        fl.call(fs.disablefilter, f)
+        r2 = fl.call(fs.updatefilter, f, f, list(upd.conditions), list(upd.actions),
                      upd.matchtype)
+        if r2[0] != "ret" or r2[1] is not True:
+            # a definition the builder accepts on its own must also be accepted as an update
+            fresh = fl.FiltersSet("fresh")
+            if fl.call(fresh.addfilter, "x", list(upd.conditions), list(upd.actions),
+                       upd.matchtype)[0] == "ret":
+                res.append(("updated-while-disabled", "update", "refused",
+                            repr(r2)[:200]))
         if r2[0] == "ret":
-            for what, how, detail in compare(upd, read(fs)):
+            for what, how, detail in compare(upd, read(fs, f)):
                 res.append(("updated-while-disabled", what, how, detail))
-            r3 = fl.call(fs.updatefilter, "f", "g", list(d.conditions), list(d.actions),
+            r3 = fl.call(fs.updatefilter, f, g, list(d.conditions), list(d.actions),
                          d.matchtype)
+            if r3[0] != "ret" or r3[1] is not True:
+                res.append(("renamed-while-disabled", "update", "refused", repr(r3)[:200]))
             if r3[0] == "ret":
-                for what, how, detail in compare(d, read(fs, "g")):
+                for what, how, detail in compare(d, read(fs, g)):
                     res.append(("renamed-while-disabled", what, how, detail))
-                if fl.call(fs.getfilter, "f") != ("ret", None):
+                if fl.call(fs.getfilter, f) != ("ret", None):
                     res.append(("renamed-while-disabled", "old-name", "still-present", "-"))
-                fl.call(fs.enablefilter, "g")
-                for what, how, detail in compare(d, read(fs, "g")):
+                fl.call(fs.enablefilter, g)
+                for what, how, detail in compare(d, read(fs, g)):
                     res.append(("renamed-then-enabled", what, how, detail))
-                fl.call(fs.updatefilter, "g", "f", list(d.conditions), list(d.actions),
+                fl.call(fs.updatefilter, g, f, list(d.conditions), list(d.actions),
                         d.matchtype)
     reloaded = False
     t = fl.render(fs)
@@ -178,7 +194,7 @@ def evaluate(d):
             b = fl.FiltersSet("r")
             if fl.call(b.from_parser_result, p)[0] == "ret":
                 reloaded = True
-                for what, how, detail in compare(d, read(b)):
+                for what, how, detail in compare(d, read(b, fl._m(f))):
                     res.append(("reloaded", what, how, detail))
     return True, res, reloaded
 
@@ -198,8 +214,18 @@ def run_shard(tier, shard, res: Result):
         if rng.random() < 0.5:
             d._update = gen_def(rng, vkind, True)
             res.count("views:update")
+        pair = rng.choice(NAME_PAIRS)
+        if rng.random() < 0.3:
+            pair = tuple(n.encode("utf-8") if rng.random() < 0.7 else n for n in pair)
+            if any(isinstance(n, bytes) for n in pair):
+                res.count("names-as-bytes")
+        d._names = pair
         built, viols, extra = evaluate(d)
-        wit = {"conditions": d.conditions, "actions": d.actions, "matchtype": d.matchtype}
+        wit = {"conditions": d.conditions, "actions": d.actions, "matchtype": d.matchtype,
+               "names": list(d._names)}
+        if getattr(d, "_update", None) is not None:
+            wit["update"] = {"conditions": d._update.conditions, "actions": d._update.actions,
+                             "matchtype": d._update.matchtype}
         if not built:
             res.count("refused")
             res.case(repr(wit), nontrivial=False)
@@ -259,6 +285,15 @@ def replay(witness, res: Result):
     d.conditions = [tuple(c) for c in witness["conditions"]]
     d.actions = [tuple(a) for a in witness["actions"]]
     d.matchtype = witness["matchtype"]
+    from ..core import unjson_bytes
+    if witness.get("names"):
+        d._names = tuple(unjson_bytes(n) for n in witness["names"])
+    if witness.get("update"):
+        u = filtgen.Definition()
+        u.conditions = [tuple(c) for c in witness["update"]["conditions"]]
+        u.actions = [tuple(a) for a in witness["update"]["actions"]]
+        u.matchtype = witness["update"]["matchtype"]
+        d._update = u
     built, viols, extra = evaluate(d)
     for v in viols:
         print(v)
